@@ -193,6 +193,10 @@ def run(run, model):
         run.skipped("R14.6", str(e))
     run.try_rule(r14_1, model)
     run.try_rule(r14_2, model)
+    from rules import c16
+    run.rule("R14.7", "both pipelines type-check a package against the environments of its own imports only (shared with C16 R16.5): a "
+                      "whole-program check that sees every loaded package accepts projects that `build` rejects")
+    run.try_rule(c16.r16_5, model)
     run.rule("R14.3", "both pipelines gate on the same diagnostics: shared with C03 R03.1 (stage gating; resolver diagnostics merged in every package type-check)")
     run.try_rule(c03.r03_1, model)
     run.try_rule(r14_4, model)
